@@ -209,9 +209,9 @@ fn main() {
                     hs.push(rx);
                 }
                 for (ti, rx) in hs.into_iter().enumerate() {
-                    match rx.recv_timeout(Duration::from_secs(120 + (n as u64) / 50)) {
+                    match rx.recv_timeout(Duration::from_secs(300 + (n as u64) / 4)) {
                         Ok((out, errs)) => { for l in out { println!("{l}"); } for e in errs { println!("FAIL call in thread {ti}: {e}"); } println!("OK thread {ti} finished {n} calls"); }
-                        Err(_) => println!("FAIL thread {ti} did not finish within {} s (a call blocked forever?)", 120 + n / 50),
+                        Err(_) => println!("FAIL thread {ti} did not finish within {} s (a call blocked forever?)", 300 + n / 4),
                     }
                 }
             }
